@@ -281,7 +281,7 @@ def expected_model(desc):
             uid = fibre_uid(a, z, v['cable'])
             params = {'length': round(v['distance'], 3), 'length_units': 'km', 'loss_coef': v['lineic'],
                       'con_in': v['con_in'], 'con_out': v['con_out']}
-            if v['pmd']:
+            if v['pmd'] is not None:        # (0 ps is a value: a link without PMD)
                 params['pmd_coef'] = v['pmd'] * 1e-12 / math.sqrt(1e3)      # ps/sqrt(km) -> s/sqrt(m)
             els[uid] = {'type': 'Fiber', 'type_variety': v['fiber'], 'params': params}
             fib[(a, z)] = uid
